@@ -224,6 +224,9 @@ class _RespProxy:
             self._log.append(t)
             yield t
 
+    def __getattr__(self, name):      # an implementation that reads the response another way (aiter_bytes, aiter_lines ...)
+        return getattr(self._r, name)
+
 
 async def parse_real(byte_chunks):
     from chuk_mcp.transports.sse.transport import SSETransport
@@ -252,7 +255,10 @@ async def parse_real(byte_chunks):
             break
     tr._incoming_send.close()
     tr._incoming_recv.close()
-    return {"acts": acts, "url": tr._message_url, "text_chunks": seen, "delivered": delivered}
+    # the model is fed what the parser was given as text; if the implementation did not ask for text at all, what a
+    # conformant incremental UTF-8 decoder yields for the same bytes (the property: delivery is chunk-independent)
+    return {"acts": acts, "url": tr._message_url, "text_chunks": seen if seen else text_chunks(byte_chunks),
+            "delivered": delivered}
 
 
 def notif(k):
